@@ -476,6 +476,28 @@ theorem firstGT_below (h : Hist) (b n : Nat) (hb : Below h b) (hn : b ≤ n + 1)
   have := hb e he
   omega
 
+/-- when the class-by-class removal of the legacy `removeDeclaredClasses` succeeds, it removed what
+the tolerant fold removes -/
+theorem undeclareM_ok (b : Nat) (l : List CHash) (m cl : Bucket CHash Nat)
+    (h : l.foldlM (undeclareStepM b) m = .ok cl) : cl = undeclareFold m b l := by
+  induction l generalizing m with
+  | nil => simp [List.foldlM, pure, Except.pure] at h; simp [undeclareFold, h]
+  | cons c r ih =>
+    rw [List.foldlM_cons] at h
+    unfold undeclareStepM at h
+    by_cases e : bget m c = none
+    · simp [e, bind, Except.bind] at h
+    · obtain ⟨v, hv⟩ := Option.ne_none_iff_exists'.mp e
+      simp only [hv, bind, Except.bind] at h
+      have := ih _ h
+      rw [this]
+      unfold undeclareFold
+      simp only [List.foldl_cons, hv, Option.some.injEq]
+
+theorem undeclareFold_append (m : Bucket CHash Nat) (b : Nat) (l1 l2 : List CHash) :
+    undeclareFold (undeclareFold m b l1) b l2 = undeclareFold m b (l1 ++ l2) := by
+  simp [undeclareFold, List.foldl_append]
+
 /-- the result of a successful legacy `Revert` -/
 theorem legacy_revert_ok (s s' : LState) (b : Nat) (d : Diff) (h : s.revert b d = .ok s') :
     (b ≠ 0 → ∀ p ∈ d.nonces, (legacyValueAt (lget s.logs (.nonce p.1)) (b - 1)).isSome = true) ∧
@@ -489,7 +511,11 @@ theorem legacy_revert_ok (s s' : LState) (b : Nat) (d : Diff) (h : s.revert b d 
   simp only at h
   split at h
   · cases h
-  · split at h
+  · next cl hcl =>
+    have hcl' : undeclareFold cl b (d.deployed.map Prod.snd) = undeclareFold s.classes b d.revertClasses := by
+      rw [undeclareM_ok b _ _ _ hcl, undeclareFold_append]; rfl
+    rw [hcl'] at h
+    split at h
     · cases h
     · next hN =>
       split at h
